@@ -50,7 +50,7 @@ def run(v, tier, seed):
 
     def explore(sockets, iters, ntraces):
         rep = W("ex%d.ndjson" % int(sockets)); tr = W("trace%d.ndjson" % int(sockets))
-        rc, out, err = vlib.run([th, "explore", str(iters), str(seed), "1" if sockets else "0", rep, tr, str(ntraces)], timeout=(400 if tier == "quick" else 2400))
+        rc, out, err = vlib.run([th, "explore", str(iters), str(seed), "1" if sockets else "0", rep, tr, str(ntraces)], timeout=(1200 if tier == "quick" else 3400))
         if rc != 0: raise vlib.MachineryError("th explore failed rc=%s: %s %s" % (rc, out[-500:], err[-1500:]))
         rows = vlib.read_ndjson(rep)
         r = vlib.tlc("ThreadTrace", "Trace_%s.cfg" % ("sock" if sockets else "wc"), "ThreadQueue", workers=1, timeout=1800, env={"TRACE": tr}, keep_out=True)
